@@ -8,9 +8,12 @@ import optsdom
 def build(ctx):
     ok, out = C.translate()      # Effects.v comes from translator-ssa (run and cached by translator/effects.go)
     ctx.log("translate", out)
-    if not ok or "translate: Effects:" in out:
+    if not ok or "translate: Effects:" in out or "translate: EffectsAlias:" in out:
         ctx.diag.append("translator failed: " + out[-400:])
-    C.prove(ctx, ["Props/C14.v"], ["Oblig/C14Obl.v", "Model/PurityFacts.v", "Model/EffectTable.v"])
+    C.prove(ctx, ["Props/C14.v", "Props/C14Alias.v", "Props/C14Obs.v"],
+            ["Oblig/C14Obl.v", "Model/PurityFacts.v", "Model/EffectTable.v",
+             "Oblig/C14AliasObl.v", "Model/PurityAliasFacts.v", "Model/AliasTable.v",
+             "Oblig/C14ObsObl.v", "Model/PurityObsFacts.v"])
     ok, out = C.build_harness()
     ctx.log("go build", out)
     if not ok:
@@ -20,7 +23,32 @@ def build(ctx):
     ctx.log("ocaml", out[-3000:])
     if not ok:
         ctx.diag.append("extracted model does not build: " + out[-600:])
+    ok, out = C.build_ocaml("c14alias")
+    ctx.log("ocaml c14alias", out[-3000:])
+    if not ok:
+        ctx.diag.append("extracted store model does not build: " + out[-600:])
     return True
+
+
+def server_corr(ctx):
+    """phase 5: the server's validate operation (Service.ValidateFile and the HTTP route) against the extracted store model."""
+    d = os.path.join(ctx.rundir, "srvcorr")
+    os.makedirs(d, exist_ok=True)
+    rc, out = C.sh([os.path.join(C.BIN, "c14"), "srvcorr", "-out", d, "-repo", C.REPO, "-n", str(ctx.scale(1800, 30000))], timeout=3000)
+    ctx.log("srvcorr", out[-1000:])
+    drv = os.path.join(C.BUILD, "ocaml", "c14alias", "driver")
+    if rc == 0 and os.path.exists(drv):
+        rc2, out2 = C.sh("%s %s > %s" % (drv, os.path.join(d, "srvcases.txt"), os.path.join(d, "srvmodel.txt")), timeout=3000)
+        if rc2 != 0:
+            ctx.diag.append("extracted store model crashed: " + out2[-300:])
+        ctx.compare("stored files after each validate request", os.path.join(d, "srvmodel.txt"), os.path.join(d, "srvimpl.txt"), os.path.join(d, "srvcases.txt"))
+    else:
+        ctx.diag.append("server correspondence could not run: " + out[-300:])
+    before = len(ctx.fails)
+    summ = ctx.read_jsonl(os.path.join(d, "srvoracle.jsonl"))
+    for f in ctx.fails[before:]:
+        f["input"] = f.get("case")
+    ctx.add_summary(summ, "server validate")
 
 
 def oracle(ctx, n, sub="oracle"):
@@ -57,8 +85,9 @@ def run(ctx):
     ctx.search = search
     ctx.trusted += ["translator-ssa (golang.org/x/tools v0.29.0 go/packages + ssa + callgraph/cha): heap-write analysis of the call-graph closure of Validate/ValidateWith/Batch.Validate/String/MarshalJSON/Error/Writer.Write; over-approximate by construction (CHA, taint from parameters/receivers/free variables/globals), blind to writes through unsafe/reflect (fails closed if the package imports them)",
                     "hand model of the nil guards inside File.IsADV (tied by the correspondence on files with nil headers/controls)"]
-    ctx.assumptions += ["the observation of the model is the part of the file the table's effects can touch (per batch: header nil or its SEC code, control nil); every other field is unwritten by the table's soundness",
-                        "Reader.Read / File.Create end with File.IsADV (modelled as such, not derived; checked on every reader / generator file by the oracle)",
+    ctx.trusted += ["translator-ssa alias mode (translator-ssa/alias.go): the same SSA program and call graph over packages ach and ach/server, origin / re-slice marks on tainted values, go/ast reading of NewBatch's switch and the NewBatchXXX bodies, SSA dominators for the returns of Reader.Read / File.Create"]
+    ctx.assumptions += ["the observation of the model is the part of the file the table's effects can touch (per batch: header nil or its SEC code, control nil) plus the ValidateOpts stored on the file; every other field is unwritten by the table's soundness",
+                        "constructions are derived from regenerated tables (NewBatch's switch, constructor statements, return classes of Reader.Read / File.Create relative to File.IsADV, provenance chain NewBatch -> File.Batches in the Reader); assumed: the Reader starts from an empty File, and package-level Err... variables are non-nil",
                         "a file assembled with NewBatch(ADV) + AddBatch without File.Create is modified by the first Validate/Write (known finding)"]
     if not build(ctx):
         return
@@ -77,6 +106,7 @@ def run(ctx):
         ctx.compare("state after each operation", os.path.join(d, "model.txt"), os.path.join(d, "impl.txt"), os.path.join(d, "cases.txt"))
     else:
         ctx.diag.append("correspondence could not run: " + out[-300:])
+    server_corr(ctx)
     summ = oracle(ctx, ctx.scale(15000, 150000))
     ctx.add_summary(summ, "snapshot oracle")
     optsdom.run(ctx, "C14")
